@@ -333,15 +333,15 @@ func (x *c11Exec) run(events []string) (viols []string, key string, enabled map[
 }
 
 type c11Result struct {
-	Cfg        c11Cfg
-	Executions int
-	States     int
-	Sends      int
-	MaxDepth   int
-	Complete   bool
-	Spins      int
+	Cfg         c11Cfg
+	Executions  int
+	States      int
+	Sends       int
+	MaxDepth    int
+	Complete    bool
+	Spins       int
 	SpinExample []string
-	Viols      []struct {
+	Viols       []struct {
 		Events []string
 		Text   string
 	}
